@@ -1,4 +1,135 @@
-/- Line protocol of C17: placeholder until the model of this property is built. -/
+import BertE.Gen.CI
+import BertE.Model.CI
+/- Line protocol of C17 (fields never contain a space).
+
+   `agg <runs>`            runs: `-` or `id/event/status/conclusion/workflowId/branch,...` (conclusion `-` = None)
+                           → `<STATE> <ids of the considered runs, or ->` | `crash KeyError`
+   `lru <cap> <accesses>`  accesses: `g:<key>` | `s:<key>:<val>`, comma separated
+                           → per access `<value or ->|<content k=v,.. most recent first or ->`, joined by `;`
+                             (`crash` and stop on the KeyError of size 0)
+   `sm <cap> <keys> <ops>` ops separated by `;`:
+                             `gs:<commit>:<key>:<raw state or ->`        GitHub status event
+                             `cs:<commit>:<runs>`                        GitHub check-suite event (the host lists these runs)
+                             `bs:<commit>:<key>:<STATE>`                 Bitbucket commit_status event
+                             `gp:<commit>:<key>:404` | `gp:<commit>:<key>:<statuses>:<runs>`   GitHub poll; statuses `-` or `key=raw,...`
+                             `bp:<commit>:<key>:404` | `bp:<commit>:<key>:<STATE>`             Bitbucket poll
+                           → per op `<job|nojob|STATE>|<key=[commit=STATE,..]&...>` (the listed keys, most recent first), joined by `;` -/
 namespace BertE.Drv.C17
-def handle (_args : List String) : String := "bad-op"
+open BertE.Build (Status)
+open BertE.CI
+
+def genTbl : Tbl :=
+  ⟨BertE.Gen.CI.conclusionRank, BertE.Gen.CI.ignoredEvents, BertE.Gen.CI.stateChain, BertE.Gen.CI.stateChainElse⟩
+
+def optStr (s : String) : Option String := if s == "-" then none else some s
+
+def parseRun (s : String) : Option Run :=
+  match s.splitOn "/" with
+  | [i, ev, st, co, w, b] =>
+    match i.toNat?, w.toNat? with
+    | some i, some w => some ⟨i, ev, st, optStr co, w, b⟩
+    | _, _ => none
+  | _ => none
+
+def parseRuns (s : String) : Option (List Run) :=
+  if s == "-" then some [] else (s.splitOn ",").mapM parseRun
+
+def showIds (rs : List Run) : String :=
+  if rs.isEmpty then "-" else ",".intercalate (rs.map (fun r => toString r.id))
+
+def handleAgg (runs : String) : String :=
+  match parseRuns runs with
+  | none => "bad-op"
+  | some rs =>
+    match genTbl.aggState rs, genTbl.considered rs with
+    | .state s, some cons => s!"{s} {showIds cons}"
+    | .crash w, _ => s!"crash {w}"
+    | _, _ => "crash"
+
+/-! LRU alone (keys and values are words) -/
+
+def showCache (l : BertE.Lru.Cache String String) : String :=
+  if l.isEmpty then "-" else ",".intercalate (l.map (fun e => s!"{e.1}={e.2}"))
+
+def lruLoop (cap : Nat) : BertE.Lru.Cache String String → List String → List String → String
+  | _, [], acc => ";".intercalate acc.reverse
+  | l, a :: rest, acc =>
+    match a.splitOn ":" with
+    | ["g", k] =>
+      let r := BertE.Lru.get l k
+      lruLoop cap r.2 rest (s!"{r.1.getD "-"}|{showCache r.2}" :: acc)
+    | ["s", k, v] =>
+      match BertE.Lru.set? cap l k v with
+      | none => ";".intercalate ("crash" :: acc).reverse
+      | some l' => lruLoop cap l' rest (s!"{v}|{showCache l'}" :: acc)
+    | _ => "bad-op"
+
+/-! the status cache -/
+
+/-- GitHub `Status.state`: `trans[raw]` -/
+def ghState (raw : Option String) : Option Status :=
+  match BertE.Gen.CI.githubStateMap.find? (·.1 == raw) with
+  | some e => Status.ofString? e.2
+  | none => none
+
+def aggStatus (rs : List Run) : Option Status :=
+  match genTbl.aggState rs with
+  | .state s => Status.ofString? s
+  | .crash _ => none
+
+/-- `AggregatedStatus.status` (a dict: the last status of a context wins) with the workflow runs stored under
+    their own key -/
+def ghReport (statuses : List (String × Status)) (actions : Status) : Key → Option Status :=
+  fun k => if k == BertE.Gen.CI.actionsKey then some actions
+           else (statuses.reverse.find? (·.1 == k)).map (·.2)
+
+def parseStatuses (s : String) : Option (List (String × Status)) :=
+  if s == "-" then some [] else
+  (s.splitOn ",").mapM (fun e => match e.splitOn "=" with
+    | [k, raw] => (ghState (optStr raw)).map (fun st => (k, st))
+    | _ => none)
+
+def parseOp (s : String) : Option Op :=
+  match s.splitOn ":" with
+  | ["gs", c, k, raw] => (ghState (optStr raw)).map (fun st => Op.ghStatus c k st)
+  | ["cs", c, runs] => do
+    let rs ← parseRuns runs
+    let st ← aggStatus rs
+    pure (Op.ghCheckSuite c BertE.Gen.CI.actionsKey st)
+  | ["bs", c, k, st] => (Status.ofString? st).map (fun st => Op.bbStatus c k st)
+  | ["gp", c, k, "404"] => some (Op.ghPoll c k none)
+  | ["gp", c, k, sts, runs] => do
+    let ss ← parseStatuses sts
+    let rs ← parseRuns runs
+    let a ← aggStatus rs
+    pure (Op.ghPoll c k (some (ghReport ss a)))
+  | ["bp", c, k, "404"] => some (Op.bbPoll c k none)
+  | ["bp", c, k, st] => (Status.ofString? st).map (fun st => Op.bbPoll c k (some st))
+  | _ => none
+
+def showAnswer : Answer → String
+  | .job _ => "job"
+  | .noJob => "nojob"
+  | .state s => s.name
+
+def showStore (keys : List String) (st : Store) : String :=
+  "&".intercalate (keys.map (fun k =>
+    s!"{k}=[{",".intercalate ((st k).map (fun e => s!"{e.1}={e.2.name}"))}]"))
+
+def handleSm (cap : Nat) (keys : List String) (ops : List Op) : String :=
+  ";".intercalate ((run cap emptyStore ops).map (fun r => s!"{showAnswer r.2}|{showStore keys r.1}"))
+
+def handle (args : List String) : String :=
+  match args with
+  | ["agg", runs] => handleAgg runs
+  | ["lru", cap, accs] =>
+    match cap.toNat? with
+    | some cap => lruLoop cap [] (accs.splitOn ",") []
+    | none => "bad-op"
+  | ["sm", cap, keys, ops] =>
+    match cap.toNat?, (ops.splitOn ";").mapM parseOp with
+    | some cap, some ops => if cap = 0 then "bad-op" else handleSm cap (keys.splitOn ",") ops
+    | _, _ => "bad-op"
+  | _ => "bad-op"
+
 end BertE.Drv.C17
